@@ -35,6 +35,7 @@ void do_plan(int tier)
   (void)tier;
   plan.cores = 2 + (int)sim_plan(5);
   sim_set_cores(plan.cores);
+  sim_set_tso(sim_plan(4) == 0);
   plan.nops = 2 + (int)sim_plan(8);
   for (int i = 0; i < plan.nops; i++) {
     C13Op &op = plan.ops[i];
